@@ -81,6 +81,12 @@ func yq(s string) string {
 			b.WriteString(`\t`)
 		case '\r':
 			b.WriteString(`\r`)
+		case 0x85:
+			b.WriteString(`\N`) // written raw, yaml reads these as line breaks and folds them
+		case 0x2028:
+			b.WriteString(`\L`)
+		case 0x2029:
+			b.WriteString(`\P`)
 		default:
 			if r < 0x20 || r == 0x7f {
 				b.WriteString(fmt.Sprintf(`\x%02x`, r))
@@ -810,10 +816,24 @@ func genInstance(r *rand.Rand, malformed bool) rawInstance {
 	if r.Intn(4) == 0 {
 		var kv [][2]string
 		texts := []string{"hello", "", "a: b", "# not comment", "- dash", "'q'", "\"dq\"", "multi\nline", "é♯ü 日本", "  lead", "trail  ", "{x}", "[y]", "null", "true", "1e3", "~",
-			"the end\n", "la la\n\n", "\nlead break", "a\r\nb\r\n", "\n", "tab\there", "x: |\n  y\n", "...", "---"}
+			"the end\n", "la la\n\n", "\nlead break", "a\r\nb\r\n", "\n", "tab\there", "x: |\n  y\n", "...", "---",
+			"\ttab first\nthen a line", "\u2028sep first\nline", "\u2029par first\nline\n", "\t\n", " lead blank\nline", "\rcr first\nline", "\u0085nel\nline", "<<", "\ufeffbom\nline", "\u00a0nbsp\nline"}
 		for _, k := range []string{"txt", "lic", "mrk", "foo", "bpm"} {
 			if r.Intn(3) == 0 {
 				kv = append(kv, [2]string{k, texts[r.Intn(len(texts))]})
+			}
+		}
+		// free-form entries named like settings, with values a setting could have: they are texts, not settings
+		if r.Intn(4) == 0 {
+			have := map[string]bool{}
+			for _, e := range kv {
+				have[e[0]] = true
+			}
+			for _, e := range [][2]string{{"key", keys28[r.Intn(28)]}, {"bpm", fmt.Sprint(30 + r.Intn(300))}, {"vel", []string{"pp", "ff", "mf"}[r.Intn(3)]}, {"mtr", "3/4"},
+				{"velocity", "ff"}, {"meter", "6/8"}, {"<<", "x"}, {"values", "1"}, {"\nkey", "v"}, {"\tk\nk", "v"}} {
+				if r.Intn(3) == 0 && !have[e[0]] {
+					kv = append(kv, e)
+				}
 			}
 		}
 		i.meta = &kv
@@ -1054,6 +1074,18 @@ func streamWrite() {
 						writeCase{debug: dbg, flags: writeFlags{track: tr, instrument: "Piano", bpm: 140, key: "A", meter: "7/8"}, is: p})
 				}
 			}
+		}
+	}
+	// fixed: a user chord of more notes than a byte can count, between rests, on one and several tracks
+	for _, n := range []int{255, 256, 257, 300} {
+		big := rawChordDef{name: "Cluster", display: "clu"}
+		small := []string{"Perfect1", "Minor2", "Major2", "Minor3", "Major3", "Perfect4", "Perfect5", "Minor6", "Major6", "Minor7", "Major7", "Perfect8", "Major9"}
+		for k := 0; k < n; k++ {
+			big.attrs = append(big.attrs, small[k%len(small)])
+		}
+		for _, tr := range []int64{1, 2, 3, 5} {
+			cases = append(cases, writeCase{flags: writeFlags{track: tr, instrument: "Piano"}, chords: []rawChordDef{big},
+				is: []rawInstance{{values: []string{"1"}}, {chord: &rawChord{degree: sp("1"), name: "clu"}, values: []string{"2"}}, {values: []string{"1/2"}}, {chord: &rawChord{degree: sp("5"), name: ""}, values: []string{"1"}}}})
 		}
 	}
 	// the same pieces spelled without quotes, with single quotes, and with YAML aliases and merges
